@@ -48,7 +48,7 @@ def gen_model(rng: Any, scanned_service: int | None) -> dict[str, Any]:
                 elif sid == 0x19:
                     sv[sid] = [2]
                 elif sid in SUBFUNC:
-                    sv[sid] = sorted(rng.sample(range(0, 0x80), rng.choice([0, 1, 3, 10])))
+                    sv[sid] = sorted(rng.sample(range(0 if sid not in (0x10, 0x11) else 1, 0x80), rng.choice([0, 1, 3, 10])))
                 else:
                     sv[sid] = None
         for sid in VENDOR_SIDS:
@@ -82,6 +82,7 @@ class C10(Check):
     assumptions = [
         "ground truth: the model ECU's own answers (services scan: answers of an independent copy of the model to the four probe payloads; identifier scan: the replies the ECU-side monitor saw)",
         "no message loss; latency well below the request timeout",
+        "models never offer sub-function 0x00 of DiagnosticSessionControl / ECUReset: the all-zero probe payloads would then change the ECU state behind the scanner's back (what --check-session exists for)",
     ]
     components = {
         "ServicesScanner / ScanIdentifiers commands (entry_point), UDSScanner setup/teardown, ECU client, tcp-lines": "real",
